@@ -277,10 +277,25 @@ pub fn pair(args: &Args) {
         let mut rng = Rng::new(seed0.wrapping_mul(1_000_003).wrapping_add(run as u64));
         let (sa, wa) = isn_seed(&mut rng, run as u64 % 4);
         let (sb, wb) = isn_seed(&mut rng, (run as u64 / 4) % 4);
-        let ca = pick_cfg(&mut rng, sa, small);
+        let mut ca = pick_cfg(&mut rng, sa, small);
         let mut cb = pick_cfg(&mut rng, sb, small);
         cb.mtu = ca.mtu; // one link, one MTU
         cb.v6 = ca.v6; // and one address family
+        // aligned runs: the receive buffer is a small multiple k of the segment size and the stream a few segments
+        // longer, so that the window fills exactly and the unsent tail is a whole number of segments
+        let aligned = rng.chance(30);
+        let seg = (ca.mtu - if ca.v6 { 60 } else { 40 } - if ca.ts && cb.ts { 12 } else { 0 }).max(1);
+        let kseg = *rng.pick(&[2usize, 3, 4, 4, 5, 5]);
+        if aligned {
+            cb.rx = kseg * seg;
+            ca.tx = ca.tx.max((kseg + 3) * seg);
+            ca.nagle = false;
+        }
+        // half of the aligned runs have a quiet link with exactly one scripted loss (the first, the second or the last
+        // segment of the first window), so that duplicate ACKs arrive in order and fast retransmit is exercised
+        BULK_WRITE.with(|c| c.set(aligned));
+        let scripted_loss = aligned && rng.chance(50);
+        DROP_NTH_DATA.with(|c| c.set(if scripted_loss { *rng.pick(&[1i64, 1, 2, kseg as i64]) } else { 0 }));
         let mut eps = [Ep::new(0, ca.clone(), Instant::from_millis(0)), Ep::new(1, cb.clone(), Instant::from_millis(0))];
         let mut num = Numbering::default();
         // link parameters
@@ -290,7 +305,11 @@ pub fn pair(args: &Args) {
         let base_delay = rng.range(1, 40) as i64;
         let jitter = *rng.pick(&[0u64, 0, 5, 50, 300]) as i64;
         let adv_until = rng.range(200, 8000) as i64; // end of the adversarial phase (ms)
-        let total = [rng.below(maxbytes + 1) as i64, if rng.chance(50) { rng.below(maxbytes / 4 + 1) as i64 } else { 0 }];
+        let (drop_pct, dup_pct, flip_pct, jitter) = if scripted_loss { (0, 0, 0, 0) } else { (drop_pct, dup_pct, flip_pct, jitter) };
+        let mut total = [rng.below(maxbytes + 1) as i64, if rng.chance(50) { rng.below(maxbytes / 4 + 1) as i64 } else { 0 }];
+        if aligned {
+            total[0] = ((kseg + *rng.pick(&[1usize, 1, 2])) * seg) as i64;
+        }
         let reader_stall = [if rng.chance(25) { rng.range(100, 5000) as i64 } else { 0 }, if rng.chance(35) { rng.range(100, 5000) as i64 } else { 0 }];
         t.ev(json!({"ev":"reset","run":run,"world":"tcp_pair","seed":seed0,"pollat":pollat_mode,
             "v6":ca.v6,"cfg":[{"rx":ca.rx,"tx":ca.tx,"mtu":ca.mtu,"cc":ca.cc,"ad":ca.ack_delay.map(|x| x as i64).unwrap_or(-1),"nagle":ca.nagle,"ts":ca.ts,"isn":wa,"ka":ca.keep_alive.map(|x| x as i64).unwrap_or(-1),"tmo":ca.timeout.map(|x| x as i64).unwrap_or(-1)},
@@ -493,12 +512,32 @@ pub fn pair(args: &Args) {
 }
 
 #[allow(clippy::too_many_arguments)]
+thread_local! {
+    /// scripted loss of the pair world: the n-th data-carrying segment from endpoint 0 is dropped once (0: none)
+    static DROP_NTH_DATA: std::cell::Cell<i64> = const { std::cell::Cell::new(0) };
+    /// aligned runs: endpoint 0 writes its whole stream with one call and closes at once
+    static BULK_WRITE: std::cell::Cell<bool> = const { std::cell::Cell::new(false) };
+}
+
 fn emit_frames(rng: &mut Rng, flight: &mut Vec<InFlight>, next_id: &mut u64, last_arrival: &mut [i64; 2], out: Vec<Vec<u8>>, from: usize, now: i64,
                adv_until: i64, drop_pct: u64, dup_pct: u64, flip_pct: u64, base_delay: i64, jitter: i64, t: &mut Trace) {
     let to = 1 - from;
     for f in out {
         let id = *next_id;
         *next_id += 1;
+        if from == 0 && DROP_NTH_DATA.with(|c| c.get()) > 0 {
+            let has_data = matches!(parse_ip(&f), Some(IpPkt { l4: L4::Tcp(ref seg), .. }) if !seg.payload.is_empty());
+            if has_data {
+                let left = DROP_NTH_DATA.with(|c| {
+                    c.set(c.get() - 1);
+                    c.get()
+                });
+                if left == 0 {
+                    t.ev(json!({"ev":"net","fid":id,"fate":"drop","scripted":true}));
+                    continue;
+                }
+            }
+        }
         if now < adv_until {
             let c = rng.below(100);
             if c < drop_pct {
@@ -550,7 +589,7 @@ fn app_step(eps: &mut [Ep; 2], e: usize, now: i64, rng: &mut Rng, total: &[i64; 
     // write
     let written = eps[e].written;
     if written < total[e] && eps[e].sock().may_send() && eps[e].sock().can_send() && rng.chance(80) {
-        let want = (rng.range_pick(1, &[1u64, 8, 100, 1500, 70000]) as i64).min(total[e] - written);
+        let want = if e == 0 && BULK_WRITE.with(|c| c.get()) { total[e] - written } else { (rng.range_pick(1, &[1u64, 8, 100, 1500, 70000]) as i64).min(total[e] - written) };
         let data: Vec<u8> = (0..want).map(|i| content(e, written + i)).collect();
         let r = eps[e].sock().send_slice(&data);
         let (ret, err) = match r {
@@ -563,6 +602,15 @@ fn app_step(eps: &mut [Ep; 2], e: usize, now: i64, rng: &mut Rng, total: &[i64; 
         }
         let p = eps[e].post(now);
         t.ev(json!({"ev":"api","ep":e,"now":now,"call":"send","n":want,"ret":ret,"err":err,"before":before,"post":p}));
+        if e == 0 && BULK_WRITE.with(|c| c.get()) && eps[e].written >= total[e] && eps[e].closed_at.is_none() && eps[e].sock().may_send() {
+            // write everything, close at once: the FIN is queued behind data that the window does not admit yet
+            let before = eps[e].state();
+            let w = eps[e].written;
+            eps[e].sock().close();
+            eps[e].closed_at = Some(w);
+            let p = eps[e].post(now);
+            t.ev(json!({"ev":"api","ep":e,"now":now,"call":"close","at":w,"before":before,"post":p}));
+        }
     } else if written >= total[e] && eps[e].closed_at.is_none() && eps[e].sock().may_send() && rng.chance(60) {
         eps[e].sock().close();
         eps[e].closed_at = Some(written);
@@ -953,8 +1001,16 @@ pub fn peer_random(args: &Args) {
                 let back = (sndnxt - rng.below(50) as i64).max(0);
                 let ackv = *rng.pick(&[sndnxt, sndnxt, sndnxt, sndnxt - 1, sndnxt + 1, 1, back]);
                 let ack = if rng.chance(95) { Some(ackv.max(0)) } else { None };
-                let rst = rng.chance(2);
+                let mut rst = rng.chance(2);
                 let syn = rng.chance(1);
+                // now and then a bare RST exactly at an edge of the receive window (the acceptance test is an edge test)
+                let (seq, len, fin) = if rng.chance(3) {
+                    rst = true;
+                    (*rng.pick(&[rcvnxt - 1, rcvnxt, edge - 1, edge, edge, edge + 1]), 0i64, false)
+                } else {
+                    (seq, len, fin)
+                };
+                let seq = seq.max(1);
                 let win = *rng.pick(&[0u16, 0, 1, 100, 1000, 65535, 536]);
                 if fin && !peer_closed {
                     peer_closed = true;
@@ -963,6 +1019,22 @@ pub fn peer_random(args: &Args) {
                 peer_nxt = peer_nxt.max(seq + len);
                 let f = w.craft(seq, ack, len as usize, syn, fin && !syn && !rst, rst, win, None, None);
                 alive = w.inject(f, &mut t, json!({}));
+            } else if c < 56 {
+                // three or four identical bare ACKs at the acknowledged frontier, with a window that may be smaller than
+                // what is in flight (fast retransmit must respect it)
+                let p = w.ep.post(w.now);
+                let sq = p["sq"].as_i64().unwrap();
+                let sndnxt = w.ep.written + 1 + if w.ep.closed_at.is_some() { 1 } else { 0 };
+                let una = (sndnxt - sq).max(1);
+                let win = *rng.pick(&[1u16, 50, 200, 536, 1000, 4000]);
+                // (the first one may count as a window update; three more identical ones make the third duplicate)
+                for _ in 0..rng.range(4, 6) {
+                    if !alive {
+                        break;
+                    }
+                    let f = w.craft(peer_nxt.max(1), Some(una), 0, false, false, false, win, None, None);
+                    alive = w.inject(f, &mut t, json!({"dupack": true}));
+                }
             } else if c < 70 {
                 let n = rng.range_pick(1, &[1u64, 8, 300, 70000]) as usize;
                 w.api_recv(n, &mut t);
